@@ -231,8 +231,10 @@ class Receiver:
                     TaskiqState: self.broker.state,
                 },
             )
+            # Every execution resolves against its own copy, so that
+            # messages processed concurrently can't see each other's Context.
             dep_ctx = dependency_graph.async_ctx(
-                broker_ctx,
+                broker_ctx.copy(),
                 self.broker.dependency_overrides or None,
             )
             # Resolve all function's dependencies.
